@@ -98,6 +98,8 @@ class Fn:
         for p in self.params:
             defs.setdefault(p["id"], []).append({"k": "param", "name": p["name"]})
             names[p["id"]] = p["name"]
+        for lc in self.j.get("locals", []) or []:     # MIR: locals carry their user names
+            names.setdefault(lc["id"], lc.get("name") or "_%s" % lc["id"])
         readonly_addr = set()
         for pt, e in self.points():
             for n in own_walk(e):
